@@ -121,8 +121,12 @@ class Delegate:
     def __init__(self, client):
         self.c = client
         self.armed = None      # event kind whose handler calls close() re-entrantly
+        self.raise_in = None   # event kind whose handler has a bug: it raises (once)
 
     def _maybe_close(self, kind):
+        if self.raise_in == kind:
+            self.raise_in = None
+            raise RuntimeError("bug in the application's %s handler" % kind)
         if self.armed == kind:
             self.armed = None
             cl = self.c
@@ -447,6 +451,10 @@ class MailboxWorld:
         conn = self.conn(act["k"])
         conn.wsclosing = True
         conn.c2s.clear()
+
+    def _do_ArmRaise(self, act):
+        """the application's delegate has a bug in one of its callbacks: it raises there (once)"""
+        self.clients[act["c"]].delegate.raise_in = act["kind"]
 
     def _do_ConnAbort(self, act):
         cl = self.clients[act["c"]]
